@@ -15,7 +15,12 @@
      GenTraphPFacts
        6. py_traph_add_page_int_spec on every state with Inv18, root_first and the anchors met known
        7. py_traph_add_page_spec, py_traph_add_pages_spec on `run d rs h`; the reports merged by dict.update = list append
-       8. the anchor condition cannot be dropped (a reopen with fewer rules: the code raises, the model skips); examples. *)
+     GenTraphPReach
+       8. anchors_known holds on `run d rs h` whenever every reopen of h re-supplies a rule for each anchor flagged in the file
+          (run_anchors_known; in particular without reopen), hence the theorems of 7 there without extra hypothesis
+     GenTraphPEx
+       9. examples by vm_compute; the theorems instantiated; the anchor condition cannot be dropped (a reopen with fewer rules:
+          the code raises KeyError, the model skips the anchor). *)
 From Coq Require Import List NArith Bool Lia Arith.
 Import ListNotations.
 From Traph Require Import Bytes Consts Layout Helpers Rules Tst TstDefs Traph Spec Ops RefDefs Traphw TraceDefs Codec CodecFacts
